@@ -411,6 +411,9 @@ func CheckC11(c *Ctx) {
 	// the layouts dates are written and read with carry every field they carry completely
 	c.timeLayouts()
 	c.jsonSeparators()
+	// a field without a format tag is written and parsed with the documented default layout
+	c.defaultsUsed("codec-agreement/default-layout", "helper")
+	c.Run.Floor("default_constants", 2)
 	// whole numbers and booleans: written in the base and with the function the reader parses
 	c.integerCodec(get, set)
 	c.parseThenSet(set)
